@@ -603,4 +603,10 @@ def hsFault (steps : List IoStep) (i : Nat) (k : Fault) (pendingAlert : Option N
   | some .sendOther => ⟨some .socketError, true, false, false⟩
   | some .flush => ⟨some .socketError, true, false, false⟩
 
+/-- an alert of the peer read by `_getMsg` in the middle of a handshake: close_notify or a warning is
+    answered with close_notify; `_shutdown(True)` only for close_notify, `_shutdown(False)` otherwise;
+    TLSRemoteAlert is raised and `_handshakeWrapperAsync` re-raises it as it is -/
+def hsAlert (_lvl d : Nat) : HsResult :=
+  ⟨some (.remoteAlert d), true, d == 0, false⟩
+
 end Tls.Conn
